@@ -26,7 +26,7 @@ def run(tier, seed):
     tie = prop_mu_family.mu_tie(res, tier, seed)
     specs = [("mu_mix", {}, 4000, 80000), ("mu_mix", {"VRT_N": 4}, 1500, 30000), ("muwait_mix", {"VRT_MODE": 1}, 1500, 30000),
              ("cv_mix", {"VRT_MODE": 2}, 1000, 20000), ("mu_mix", {}, 1500, 30000, "binary"),
-             ("rdwait_stuck", {}, 3, 10), ("rdwait_stuck", {"VRT_SCRIPT": 0}, 2000, 40000)]
+             ("rdwait_stuck", {}, 3, 10), ("longwait_stuck", {"VRT_CLOCKP": 0}, 5, 30), ("longwait_stuck", {"VRT_SCRIPT": 0}, 300, 5000), ("rdwait_stuck", {"VRT_SCRIPT": 0}, 2000, 40000)]
     cov = scen_common.run_scenarios(res, specs, tier, seed, {"C02", "C06", "C06x"} | scen_common.LIVENESS | scen_common.CRASHES)
     cov["rule"] = ("mu_mix (2..4 threads + late arrivals, lock/rlock/trylock/rtrylock sections), muwait_mix MODE 1 (reader-mode timed "
                    "conditional waits followed by fresh readers/writers), cv_mix MODE 2; oracles: no run ends with every unfinished thread "
